@@ -78,11 +78,21 @@ fn parse_member(e: &str) -> Member {
 ///                `<hex key>:<hex value>`, or `<hex key>:*` for a value whose JSON text the model does not render
 ///                (exact: TOTAL, MEMBERS, STAKE; `*`: admin, hooks, config, claims, cw2 contract_info, anything else)
 ///   C.<dump>     the entries of `members__changelog` / `total__changelog` (`<hex key>:<hex value>`), in full up
-///                to 40 entries, else `#<count>.<fnv1a-64 of the full text>`
+///                to 16 entries, else `#<count>.<fnv1a-64 of the full text>`
 /// Not shown (the model state does not record whether these keys exist, see `Model/Cw4Raw.lean`): a `cw4-hooks`
 /// item holding `[]`, a STAKE entry holding `"0"`, a CLAIMS entry holding `[]`.
 pub fn render_raw_keys(data: &BTreeMap<Vec<u8>, Vec<u8>>, member_keys: &[Vec<u8>], primary_keys: &[Vec<u8>]) -> String {
     use cosmwasm_std::storage_keys::to_length_prefixed;
+    // lower-case hex (as `common::hex`, without a `format!` per byte: this runs over the whole storage after every op)
+    fn hex(b: &[u8]) -> String {
+        const D: &[u8; 16] = b"0123456789abcdef";
+        let mut s = String::with_capacity(2 * b.len());
+        for x in b {
+            s.push(D[(x >> 4) as usize] as char);
+            s.push(D[(x & 15) as usize] as char);
+        }
+        s
+    }
     let members = to_length_prefixed(cw4::MEMBERS_KEY.as_bytes());
     let members_log = to_length_prefixed(cw4::MEMBERS_CHANGELOG.as_bytes());
     let total_log = to_length_prefixed(cw4::TOTAL_KEY_CHANGELOG.as_bytes());
@@ -107,7 +117,7 @@ pub fn render_raw_keys(data: &BTreeMap<Vec<u8>, Vec<u8>>, member_keys: &[Vec<u8>
         }
     }
     let logs_text = logs.join(",");
-    let c = if logs.len() <= 40 { logs_text } else { format!("#{}.{:016x}", logs.len(), hash_str(&logs_text)) };
+    let c = if logs.len() <= 16 { logs_text } else { format!("#{}.{:016x}", logs.len(), hash_str(&logs_text)) };
     let hexes = |ks: &[Vec<u8>]| ks.iter().map(|k| hex(k)).collect::<Vec<_>>().join("+");
     format!(
         "T.{}/M.{}/P.{}/D.{}/C.{}",
